@@ -6,14 +6,15 @@ proof:          lean/PymtlVerif/Props/C02.lean (overlap exact at bit level; topo
 correspondence: (a) model deps (bit overlap) vs the implementation's _dag.all_constraints; (b) every pass's schedule
                 checked by the model's topoB; (c) run-time call order recorded with sys.setprofile; (d) SimpleSchedulePass
                 schedule replayed through the model's Kahn; (e) explicit U<U constraints, inversions and pure explicit cycles;
-                (f) method constraints: c02_methods.run (model `process` vs the pairs the pass adds; schedule and run-time call order)
+                (f) method constraints: c02_methods.run (model `process` vs the pairs the pass adds; schedule and run-time call order);
+                (g) blocking (FL) blocks wrapped by WrapGreenletPass: c02_greenlet.run (execution trace per cycle under four pass groups)
 direct oracle:  positions in the real schedules / real call order vs bit overlap computed independently in Python (rtlgen.py_deps)
 """
 import sys
 
 from ..common import leanio, rtlgen
 from ..common.leanio import InfraError
-from . import c02_methods, c02_gendag
+from . import c02_methods, c02_gendag, c02_greenlet
 
 PID = 'C02'
 DRIVERS = ['rtl']
@@ -28,7 +29,8 @@ TRUSTED = [
 ]
 ASSUMPTIONS = [
   'method constraints: GenDAGPass._process_methods is modelled (Model/Methods.lean: == classes by flood fill, pred/succ maps, per-method search with direction w, the four exclusions) and proved (Props/C02m.lean: process_exact = exact characterisation of the added block pairs for any number of hops; sound; complete for direct M<M / U<M / M<U constraints through == classes on both sides; complete along search walks; schedule corollaries incl. Kahn with any tie-break); tied to the code by comparing the added pairs on stdlib CL designs and generated method-port components (harness/checks/c02_methods.py)',
-  'PARTIAL (method clause): not proved and not true of the code — ordering through a chain that passes through a constrained BLOCK is only obtained by composing the two added pairs; exclusions are evaluated on the last hop only; acyclicity of the result is not claimed (cycles are rejected by the scheduler). Not modelled: OpenLoopCLPass (top_level_callee_constraints, its own schedule), blocking FL interfaces / greenlet wrapping (WrapGreenletPass renames blocks in all_constraints), CLLineTracePass wrappers (switched off in the generated-method designs so that method identities stay those the DAG pass used; the queue probe runs with them on)',
+  'PARTIAL (method clause): not proved and not true of the code — ordering through a chain that passes through a constrained BLOCK is only obtained by composing the two added pairs; exclusions are evaluated on the last hop only; acyclicity of the result is not claimed (cycles are rejected by the scheduler). Not modelled: OpenLoopCLPass (top_level_callee_constraints, its own schedule), CLLineTracePass wrappers (switched off in the generated-method designs so that method identities stay those the DAG pass used; the queue probe runs with them on)',
+  'blocking FL interfaces / greenlet wrapping: WrapGreenletPass (renaming of the wrapped blocks in all_constraints / final_upblks) is NOT modelled in Lean; it is exercised by harness/checks/c02_greenlet.py: generated designs with >= 2 greenlet-wrapped update_once blocks joined by value edges, explicit U<U and stdlib-queue M<M pairs, under SimpleSimPass / DefaultPassGroup / UnrollSim / Mamba2020, with the per-cycle execution-trace oracle (each block once, writer before reader, explicit and method pairs honoured, same-cycle values) and the structural tie (every end-point of all_constraints is in final_upblks; pairs mapped back to blocks compared with the method model)',
   'struct fields are not generated here (bit ranges via slices only); nested-field footprints are covered by the theorem about ranges',
 ]
 RULE = ('method clause: stdlib CL chains (1-3 of Pipe/Bypass/Normal/DelayPipeDeq queues, optional StallCL front, deq / deq-side pass-through / DelayPipeSendCL tail, shuffled block order), '
@@ -231,6 +233,7 @@ def run(ck):
   rng = ck.rng
   method_constraint_probe(ck)
   c02_methods.run(ck)
+  c02_greenlet.run(ck)      # blocking (FL) blocks: WrapGreenletPass re-keying of all_constraints, every pass group
   n = 200 if ck.tier == 'quick' else 5000
   lines, meta = [], []
   for _ in range(n):
@@ -288,4 +291,5 @@ def replay(ck, data):
   print(data.get('kind'), data.get('signature')); print(str(data.get('detail'))[:1500])
   if (data.get('case') or {}).get('gendag'): return c02_gendag.replay(ck, data['case'])
   if (data.get('case') or {}).get('methods'): return c02_methods.replay(ck, data['case'])
+  if (data.get('case') or {}).get('greenlet'): return c02_greenlet.replay(ck, data['case'])
   return rtlgen.replay_source(ck, data.get('case') or {})
